@@ -129,13 +129,20 @@ def plan(tier):
             add("Chiral", p, 2900, CHIRAL_GRIDS[2900])
     # ---- 2D
     for T in ((2400, 1200) if quick else (2400, 1200, 600)):
+        second = quick and T != 2400       # quick: the second temperature only on a sub-list (time budget)
         for m in ("zoo2d_2", "zoo2d_3"):
+            if second and m != "zoo2d_2":
+                continue
             for p in ALLP:
-                if p == "NLDrude2" and (T == 600 or (quick and T != 2400)):
+                if p == "NLDrude2" and (T == 600 or second):
                     continue
                 add(m, p, T, GRIDS[(2, T)])
         for m, ps in BUNDLED_2D:
+            if second and m != "KaneMele_odd_Z":
+                continue
             for p in ps:
+                if second and p not in ("GME_spin", "GME_orb", "BerryDipole"):
+                    continue
                 add(m, p, T, GRIDS[(2, T)])
     return out
 
